@@ -115,6 +115,8 @@ func execOp(s *exec.State, ev abs.V) {
 			eqb = abs.I(x)
 		}
 		s.UnmarshalFull(ev["entry"].(string), abs.I(ev["b"]), h, dh, eqh, eqb)
+	case "unmarshal2":
+		s.UnmarshalReuse(ev["entry"].(string), abs.GoBytes(ev["first"]), abs.I(ev["b"]))
 	case "datagram":
 		var parts []int
 		if pl, ok := ev["parts"]; ok {
